@@ -124,6 +124,31 @@ fn main() {
             let o = execute(plan, &dir);
             write_outcome(&dir, &o);
         }
+        "minimise" => {
+            // sossim minimise <replay.json> <budget_s>: shrink further, rewrite the file
+            let f = PathBuf::from(args.get(2).expect("replay file"));
+            let budget: u64 = args.get(3).and_then(|s| s.parse().ok()).unwrap_or(300);
+            let doc: serde_json::Value =
+                serde_json::from_slice(&std::fs::read(&f).expect("read")).expect("json");
+            let plan: Plan = serde_json::from_value(doc["plan"].clone()).expect("plan");
+            let prop = doc["property"].as_str().unwrap_or("").to_string();
+            let sig = doc["signature"].as_str().unwrap_or("").to_string();
+            let root = runner::scratch_root();
+            let min = runner::minimise(
+                &plan,
+                &prop,
+                &sig,
+                &root,
+                std::time::Duration::from_secs(180),
+                std::time::Duration::from_secs(budget),
+            );
+            let _ = std::fs::remove_dir_all(&root);
+            println!("steps {} -> {}", plan.steps.len(), min.steps.len());
+            let mut doc = doc;
+            doc["minimised_steps"] = serde_json::json!(min.steps.len());
+            doc["plan"] = serde_json::to_value(&min).unwrap();
+            std::fs::write(&f, serde_json::to_vec_pretty(&doc).unwrap()).expect("write");
+        }
         "list" => {
             for id in registry::all_ids() {
                 println!("{id}");
